@@ -94,8 +94,22 @@ func StartCollector(in collector.CollectorInput) (*Coll, error) {
 	return StartCollectorPaced(in, nil)
 }
 
-// StartCollectorPaced is StartCollector with a consumer pacing function.
+// StartCollectorPaced is StartCollector with a consumer pacing function. Listening on port 0 of a
+// loopback address has no environmental reason to fail, but to be safe three attempts are made;
+// an error returned from here means the collecting process did not start three times in a row.
 func StartCollectorPaced(in collector.CollectorInput, pause func()) (*Coll, error) {
+	var c *Coll
+	var err error
+	for attempt := 0; attempt < 3; attempt++ {
+		if c, err = startCollectorOnce(in, pause); err == nil {
+			return c, nil
+		}
+		time.Sleep(50 * time.Millisecond)
+	}
+	return nil, fmt.Errorf("the collecting process did not start in 3 attempts: %v", err)
+}
+
+func startCollectorOnce(in collector.CollectorInput, pause func()) (*Coll, error) {
 	cp, err := collector.InitCollectingProcess(in)
 	if err != nil {
 		return nil, err
